@@ -79,6 +79,19 @@ CAT = {
     "C23-C": ("the pre-operation clear of the C-CANCEL store replaced by a clear on every idle reactor poll", "a C-CANCEL and the next request (same message ID) arriving within one reactor poll interval", ["C23"]),
     "C24-C": ("decode_msg skips empty fragments - including the 'last' test", "a peer ending a data set with an empty fragment marked last", ["C24", "C15"]),
     "C27-C": ("AA-2 triggers EVT_CONN_CLOSE only if the socket is still connected - after closing it", "AA-2 closing the connection (ARTIM expiry in Sta2, abort collision in Sta13)", ["C27"]),
+    # --- fourth round (source /tmp/seed/out4/<ID>/A), same procedure, for the properties that had no third-round change
+    "C02-D": ("decode_msg skips an empty data-set fragment before the 'last fragment' test (as C24-C, written independently for C02)", "a peer ending a data set with a zero-length last fragment", ["C24", "C15"]),
+    "C04-D": ("Timer.restart() only restarts a timer that was started: AA-1 on the requestor leaves ARTIM stopped in Sta13", "a requestor that aborts while the peer keeps streaming PDUs", ["C08"]),
+    "C09-D": ("Timer.remaining subtracts max(monotonic elapsed, wall-clock elapsed)", "the wall clock stepped forwards while a timer runs", ["C09"]),
+    "C11-D": ("the SCP/SCU role proposal of one context is reused for later contexts that carry none", "a role item for SOP class X, none for Y listed after it, acceptor with explicit roles for Y", ["C11"]),
+    "C12-D": ("associate() keeps a context ID that is already set on a requested context", "associate(contexts=...) with contexts taken from an earlier association plus a new one", ["C12"]),
+    "C13-D": ("required calling titles cached in a pre-stripped set that is emptied before the new list is validated", "an update of require_calling_aet that the setter refuses (invalid title), then an unlisted caller", ["C13"]),
+    "C16-D": ("a data-set fragment is flagged last only if it is shorter than the room in the PDV", "an encoded data set whose length is an exact multiple of (peer maximum - 6)", ["C16", "C15"]),
+    "C18-D": ("role filter moved before the UPS context substitution (as C18-A, written independently)", "UPS Push request with only another UPS context accepted, on which the sender is not SCU", ["C18"]),
+    "C19-D": ("a received message takes its context ID from the last PDV instead of the command PDV", "command PDV on an unaccepted context ID, data-set PDV on an accepted one", ["C19"]),
+    "C21-D": ("fragment count computed as (len + room) // room: one too many at exact multiples", "a response data set whose encoding is an exact multiple of (requestor maximum - 6)", ["C16", "C21"]),
+    "C25-D": ("fragment length rounded down to even while the caller still counts fragments with the unrounded length", "a peer announcing an odd maximum PDU length", ["C25", "C15", "C16"]),
+    "C26-D": ("a failing notification handler sets the reactor checkpoint (un-pauses the reactor)", "a raising notification handler on the side that is inside a multi-response send_*() whose results are consumed slowly", ["C26"]),
 }
 
 
